@@ -1,16 +1,175 @@
 /-
-C19 — property theorems (every `theorem` in this module is a proof obligation, axiom-audited by bin/check).
+C19 — property theorems (every `theorem` in this module is a proof obligation; `bin/check C19` audits each
+one's axioms). Helper lemmas live in Kap/Proofs/C19Frame.lean and Kap/Proofs/C19Echo.lean.
+
+Statement (properties.jsonl): points and batches sent through a UDF that echoes its input come back identical in
+name, database, retention policy, group, dimensions, tags, field names, values and types, time and batch
+boundaries, in order, and every protocol message written is read back as the same message regardless of how the
+byte stream is fragmented; snapshot/restore returns the bytes the UDF supplied. Quantifier: all point/batch
+sequences over all field types and group shapes, all splits of the byte stream into reads, all interleavings of
+data with keepalive and snapshot requests.
 -/
-import Kap.Spec.C19
+import Kap.Proofs.C19Frame
+import Kap.Proofs.C19Echo
 namespace Kap.Props.C19
 open Kap.C19
 
-/-- Counterexample (snapshot ef0888e): a reader that delivers the last bytes of the stream together with `io.EOF`
-makes the old `ReadMessage` loop drop the last message: two frames are written, one is read back, then an error. -/
+/-! ### Framing (`udf/agent/io.go`) -/
+
+/-- **uvarint round trip, under every fragmentation**: for every `n < 2^64`, however the bytes of
+`PutUvarint(n)` (followed by anything) are split into chunks, `ReadUvarint` returns `n` and leaves exactly what
+followed. -/
+theorem uvarint_roundtrip (n : Nat) (hn : n < 2 ^ 64) (cs : Chunks) (rest : List Nat)
+    (hcs : cs.flatten = putUvarint n ++ rest) :
+    ∃ cs', readUvarint cs = .ok (n, cs') ∧ cs'.flatten = rest :=
+  readUvarint_put n hn cs rest hcs
+
+/-- `WriteMessage` puts exactly the frame on the wire (its 5-byte varint buffer is enough) for every payload
+shorter than 2^35 bytes. -/
+theorem writeMessage_is_frame (data : List Nat) (h : data.length < 2 ^ 35) : writeMessage data = some (frame data) := by
+  have : (putUvarint data.length).length ≤ 5 := putUvarint_length_le 4 data.length (by simpa using h)
+  simp [writeMessage, frame, this]
+
+/-- **Framing is independent of fragmentation**: for every list of payloads and EVERY split of the byte stream
+that `WriteMessage` produced for them into reads (including empty reads, one-byte reads, splits inside the varint,
+and a last read that carries `io.EOF` along with its bytes), the read loop returns exactly these payloads, in
+order, and then the clean end of stream. -/
+theorem framing_chunk_independent (ps : List (List Nat)) (hlen : ∀ p ∈ ps, p.length < 2 ^ 64)
+    (cs : Chunks) (hcs : cs.flatten = (ps.map frame).flatten) (ewd : Bool) :
+    readAll ewd cs = (ps, RdErr.eof) := by
+  have hfuel : ps.length < totalBytes cs + 1 := by
+    have := frames_length_ge ps
+    unfold totalBytes; rw [hcs]; omega
+  have := readAllWith_frames ewd ps (totalBytes cs + 1) cs hlen hcs hfuel
+  unfold readAll srcDataFirst
+  rw [← this.1, ← this.2]
+
+/-- … hence every MESSAGE written is read back as the same message, for any codec that decodes what it encoded
+(protobuf is trusted to be one), any message list, any fragmentation. -/
+theorem messages_read_back {μ : Type} (enc : μ → List Nat) (dec : List Nat → Option μ)
+    (hcodec : ∀ m, dec (enc m) = some m) (ms : List μ) (hlen : ∀ m ∈ ms, (enc m).length < 2 ^ 64)
+    (cs : Chunks) (hcs : cs.flatten = (ms.map (fun m => frame (enc m))).flatten) (ewd : Bool) :
+    (readAll ewd cs).1.map dec = ms.map some ∧ (readAll ewd cs).2 = RdErr.eof := by
+  have h := framing_chunk_independent (ms.map enc) (by simpa using hlen) cs (by simpa [List.map_map, Function.comp_def] using hcs) ewd
+  rw [h]
+  simp [List.map_map, Function.comp_def, hcodec]
+
+/-- Counterexample (snapshot ef0888e, repaired by the `fix:` commit recorded in findings/C19.txt): a reader that
+delivers the last bytes of the stream together with `io.EOF` made the old `ReadMessage` loop drop them: two frames
+are written, one message is read back, then an error (replayed by corpus/C19/eof-with-last-bytes.ops). -/
 theorem old_readMessage_drops_last_message :
-    ∃ (msgs : List (List Nat)) (cs : Chunks), cs.flatten = (msgs.map frame).flatten ∧
-      readAllOld true cs ≠ (msgs, RdErr.eof) := by
-  refine ⟨[[8, 42], [10, 2, 1, 2]], [[2, 8, 42, 4, 10, 2, 1, 2]], ?_, by decide⟩
-  simp [frame, putUvarint]
+    ∃ (ps : List (List Nat)) (cs : Chunks), (∀ p ∈ ps, p.length < 2 ^ 64) ∧ cs.flatten = (ps.map frame).flatten ∧
+      readAllOld true cs ≠ (ps, RdErr.eof) := by
+  refine ⟨[[8, 42], [10, 2, 1, 2]], [[2, 8, 42, 4, 10, 2, 1, 2]], by decide, ?_, by decide⟩
+  simp [frame, putUvarint_lt]
+
+/-! ### Typed field maps (`fieldsToTypedMaps` / `typeMapsToFields`) -/
+
+/-- **Fields survive the split into four typed maps and the merge back**: for every field set (a Go map: distinct
+keys) over the four supported types, what `typeMapsToFields` rebuilds from the typed maps holds exactly the
+entries that were sent — same names, same values, same types. -/
+theorem fields_roundtrip (f : Fields) (hkeys : (keys f).Nodup) :
+    (typeMapsToFields (strsOf f) (floatsOf f) (intsOf f) (boolsOf f)).Perm f ∧
+    sameMap f (typeMapsToFields (strsOf f) (floatsOf f) (intsOf f) (boolsOf f)) = true :=
+  ⟨rtFields_perm f hkeys, sameMap_of_perm (rtFields_perm f hkeys).symm⟩
+
+/-! ### Echo identity, for every input sequence and every schedule -/
+
+/-- The server writes, for a sequence of well-bracketed inputs (points, buffered batches, batches as
+begin/points/end), exactly the requests `Item.reqs` lists — whatever `begin` it remembered before. -/
+theorem server_writes_items (items : List Item) (st : Option Begin) :
+    ∃ st', serverWriteAll st (items.flatMap Item.msgs) = some (st', items.flatMap Item.reqs) :=
+  serverWriteAll_items items st
+
+/-- **Echo identity.** Take ANY sequence of well-formed inputs; ANY management requests (keepalive, snapshot,
+restore, info, init) interleaved ANYWHERE into the request stream; a peer that echoes every data request and
+answers every management request; ANY interleaving of its echoed responses with its management responses.
+Then `handleResponse` never dereferences nil, ends with no batch open, and hands out data messages that are
+exactly the inputs: as many, in order, each the same in name, database, retention policy, group, dimensions,
+tags, fields (names, values, types), time; batches with their boundaries and their points in order. -/
+theorem echo_identity (items : List Item) (hwf : ∀ it ∈ items, it.WF)
+    (ctl : List Request) (hctl : ∀ r ∈ ctl, r.isData = false)
+    (reqs : List Request) (hreqs : Interleave (items.flatMap Item.reqs) ctl reqs)
+    (h : Peer) (resps : List Response)
+    (hresps : Interleave (agentRun h reqs).2.2 (agentRun h reqs).2.1 resps) :
+    ∃ outs, handleAll {} resps = some ({}, outs) ∧
+      echoIdentity (items.map Item.data) ((dataOuts outs).filterMap edgeData) = true ∧
+      ctlOuts outs = (agentRun h ctl).2.1.flatMap ctlOutOf := by
+  have hdata : ∀ r ∈ items.flatMap Item.reqs, r.isData = true := by
+    intro r hr
+    obtain ⟨it, _, hit⟩ := List.mem_flatMap.mp hr
+    exact item_reqs_data it r hit
+  have hech : (agentRun h reqs).2.2 = (items.flatMap Item.reqs).flatMap echoOf := by
+    rw [agentRun_echoed, flatMap_echo_interleave hreqs hctl]
+  rw [hech] at hresps
+  obtain ⟨outs, h1, h2, h3⟩ := handleAll_interleave hresps (agentRun_direct_ctl h reqs) {} {} _ (echo_items items) (ctlOuts_msgs items)
+  refine ⟨outs, h1, ?_, ?_⟩
+  · rw [h2, dataOuts_msgs]
+    exact echoIdentity_items items hwf
+  · rw [h3, (agentRun_direct_interleave hreqs hdata h).1]
+
+/-! ### Snapshot / restore -/
+
+/-- **Snapshot / restore carry the bytes unchanged, under every schedule**: with data flowing and management
+requests interleaved in any way (hypotheses of `echo_identity`), every snapshot request is answered — in request
+order — with exactly the bytes the UDF holds, and the UDF ends up holding for restore exactly the bytes of the
+last restore request. -/
+theorem snapshot_restore_bytes (items : List Item)
+    (ctl : List Request) (hctl : ∀ r ∈ ctl, r.isData = false)
+    (reqs : List Request) (hreqs : Interleave (items.flatMap Item.reqs) ctl reqs)
+    (h : Peer) (resps : List Response)
+    (hresps : Interleave (agentRun h reqs).2.2 (agentRun h reqs).2.1 resps) :
+    ∃ outs, handleAll {} resps = some ({}, outs) ∧
+      outs.filterMap snapOf = (ctl.filter isSnapshotReq).map (fun _ => h.snap) ∧
+      (agentRun h reqs).1.restored = lastRestore ctl h.restored := by
+  have hdata : ∀ r ∈ items.flatMap Item.reqs, r.isData = true := by
+    intro r hr
+    obtain ⟨it, _, hit⟩ := List.mem_flatMap.mp hr
+    exact item_reqs_data it r hit
+  have hech : (agentRun h reqs).2.2 = (items.flatMap Item.reqs).flatMap echoOf := by
+    rw [agentRun_echoed, flatMap_echo_interleave hreqs hctl]
+  rw [hech] at hresps
+  obtain ⟨outs, h1, _, h3⟩ := handleAll_interleave hresps (agentRun_direct_ctl h reqs) {} {} _ (echo_items items) (ctlOuts_msgs items)
+  have hsn := agentRun_ctl_snap ctl h
+  refine ⟨outs, h1, ?_, ?_⟩
+  · rw [filterMap_snapOf_ctlOuts, h3, (agentRun_direct_interleave hreqs hdata h).1, hsn.1]
+  · rw [(agentRun_direct_interleave hreqs hdata h).2, hsn.2.1]
+
+/-! ### Non-vacuity: the hypotheses are met by concrete, non-trivial instances -/
+
+/-- 300 needs a two-byte varint; its bytes split one per read, a stray empty read, the rest in one chunk. -/
+example : putUvarint 300 = [172, 2] ∧ readUvarint [[172], [], [2, 7, 7]] = .ok (300, [[7, 7]]) := by
+  refine ⟨by rw [putUvarint_ge (by decide), putUvarint_lt (by decide)], by rfl⟩
+
+/-- Two frames (the second empty) read back from one-byte reads with the last byte carrying `io.EOF`. -/
+example : readAll true [[2], [8], [42], [0]] = ([[8, 42], []], RdErr.eof) := by decide
+
+def exPoint : Point := newPoint "cpu" "db" "rp" true ["host"] [("v", .float 0x7ff8000000000001), ("n", .int 9007199254740993), ("s", .str "é\n"), ("b", .bool true)] [("host", "a")] 1
+def exB : Begin := newBegin "m" [("dc", "x")] false 5 2
+def exBP1 : BP := ⟨[("v", .int (-1))], [("dc", "x")], 4⟩
+def exBP2 : BP := ⟨[], [], 5⟩
+def exBatch : Item := .batch false exB [exBP1, exBP2]
+
+theorem ex_wf : (Item.pt exPoint).WF ∧ exBatch.WF := by
+  refine ⟨⟨by decide, rfl⟩, ⟨rfl, rfl⟩, ?_⟩
+  intro bp hbp
+  simp at hbp
+  rcases hbp with rfl | rfl <;> simp [BP.WF, keys, exBP1, exBP2]
+
+/-- `echo_identity` instantiated: a point with all four field types (NaN payload, an int beyond 2^53, a string with
+a newline) followed by an unbuffered batch (begin, two points, end); a snapshot request is written between the
+batch's begin and its first point and a keepalive after the batch; on the way back the snapshot response sits
+between the echoed begin and the first echoed point, the keepalive response arrives before the echoed end.
+The hypotheses hold, so the conclusion does. -/
+example : ∃ outs, handleAll {} (echoOf (writePoint exPoint) ++ echoOf (writeBegin exB) ++ [.snapshot [9, 9]] ++
+        echoOf (writeBatchPoint exB.group exBP1) ++ echoOf (writeBatchPoint exB.group exBP2) ++ [.keepalive 7] ++
+        echoOf (writeEnd exB)) = some ({}, outs) ∧
+    echoIdentity [Item.data (.pt exPoint), exBatch.data] ((dataOuts outs).filterMap edgeData) = true ∧
+    ctlOuts outs = [.snapshot [9, 9]] :=
+  echo_identity [.pt exPoint, exBatch] (by intro it hit; simp at hit; rcases hit with rfl | rfl; exact ex_wf.1; exact ex_wf.2)
+    [.snapshot, .keepalive 7] (by decide)
+    _ (.left (.left (.right (.left (.left (.left (.right .nil)))))))
+    { snap := [9, 9] } _
+    (.left (.left (.right (.left (.left (.right (.left .nil)))))))
 
 end Kap.Props.C19
